@@ -27,7 +27,10 @@ CHECKS = {'C01': {'level': 'exploration',
                  'takes no lock; the harness performs it from a trigger callback that the walk itself calls, so the instant is owned without a '
                  'second goroutine); the registry order of 2..5 value columns, 1..3 scratch columns and the trigger is drawn; oracle = plain model: '
                  'every live row reads exactly what its own insert stored in every live column, Count, free offsets; non-trivial = a drop landed '
-                 'inside a delete sweep and a swept offset was re-used afterwards',
+                 'inside a delete sweep and a swept offset was re-used afterwards | the same test (round 8) also runs transactions of 1..8 stores '
+                 'and merges over several columns and rows - through Row setters or through txn.Int(name) accessors at the cursor - with a '
+                 'DropColumn of one of the written columns landing at a drawn point INSIDE the body: what was queued for the dropped column vanishes '
+                 'with it, every other write of the transaction must arrive',
          'assumptions': ["values are in the documented domain (strings <= 65535 bytes; SetAny/SetMany values have the column's Go type)",
                          'writes target rows that are live when issued (writes to dead offsets are outside the property)',
                          'histories are bounded: <= 3 blocks (offsets < 49152), ~30 actions, <= 12 steps per transaction'],
